@@ -61,6 +61,7 @@ def plan(tier, seed):
         # each of the 13 action-flag bits the rules do not mention, alone, with every rule-bit combination
         ch += [{'k': 'product', 'lo': lo, 'hi': lo + 8, 'tier': 'quick', 'onehot': True} for lo in range(0, 256, 8)]
     ch.append({'k': 'lookup'})
+    ch.append({'k': 'cli_lookup'})
     for part in range(8):
         ch.append({'k': 'cli', 'part': part, 'parts': 8})
     for part in range(8):
@@ -100,6 +101,8 @@ def eval_case(case):
     pt = impl.ensure(False)
     if case.get('cli'):
         return _cli_case(case, pt)
+    if case.get('cli_lookup'):
+        return [v for v in run_chunk({'k': 'cli_lookup'}).violations if v['case'] == case]
     sev, flags, sw, groups = case['sev'], case['flags'], case['sw'], case['groups']
     uh = make_uh(pt, sev, flags)
     cfg = make_cfg(sw, groups, case.get('lookup'))
@@ -165,6 +168,37 @@ def run_chunk(chunk):
                 res.case(nontrivial_key=json.dumps(case), outcome='cli:' + ('bad' if vs else 'ok'),
                          sample=case if res.evals % 40 == 1 else None)
                 res.add(vs)
+    elif k == 'cli_lookup':
+        # look-ups through the command line, with key values that are falsy once converted (id 0, PLID 0, entry id 0) as
+        # well as ordinary ones, on PELs of every class: a look-up without selection options considers every PEL
+        classes = [(0x40, 0xA000), (0x40, 0x6000), (0x20, 0x0000), (0x00, 0x0000), (0x00, 0x4000), (0x51, 0x6000)]
+        for key in (0, 1, 0x50000007):
+            for ci, (sev, flags) in enumerate(classes):
+                case = {'cli_lookup': True, 'key': key, 'sev': sev, 'flags': flags}
+                with tempfile.TemporaryDirectory(prefix='c07l_', dir=clidrv.odd_root()) as d:
+                    spec = {'eid': key, 'plid': key, 'obmc': key, 'uh': {'sev': sev, 'flags': flags},
+                            'sections': [{'t': 'PS', 'ascii': 'BD8D0000'.ljust(32)}]}
+                    with open(os.path.join(d, '20240101_%08X' % key), 'wb') as f:
+                        f.write(pelgen.encode_pel(pelgen.pel_from_spec(spec)))
+                    other = {'eid': 0x60000001, 'plid': 0x60000001, 'obmc': 777, 'sections': [{'t': 'PS', 'ascii': '11001111'.ljust(32)}]}
+                    with open(os.path.join(d, '20240102_60000001'), 'wb') as f:
+                        f.write(pelgen.encode_pel(pelgen.pel_from_spec(other)))
+                    probs = []
+                    for argv, kind in ((['--bmc-id', str(key)], 'doc'), (['-i', '%08X' % key], 'doc'), (['--plid', '%08X' % key], 'list'),
+                                       (['--src', 'BD8D0000'], 'list')):
+                        core.arm(30)
+                        r = clidrv.run_main(['-p', d] + argv, isolate=True)
+                        core.disarm()
+                        try:
+                            v = strictjson.loads(r.stdout)
+                            found = (v['Private Header']['Entry Id'] == '0x%08X' % key) if kind == 'doc' else ('0x%08X' % key) in v
+                        except Exception:
+                            found = False
+                        if not found:
+                            probs.append('%s does not find the PEL (stdout %r)' % (' '.join(argv), r.stdout.strip()[:40]))
+                    res.case(nontrivial_key=json.dumps(case), outcome='cli-lookup:' + ('bad' if probs else 'found'))
+                    if probs:
+                        res.violation('C07:lookup-cli', 'severity 0x%02X flags 0x%04X: %s' % (sev, flags, '; '.join(probs)), case)
     elif k == 'subproc':
         n_ok = 0
         with tempfile.TemporaryDirectory(prefix='c07s_', dir=clidrv.odd_root()) as d:
@@ -175,7 +209,7 @@ def run_chunk(chunk):
                 sl = i % len(CLI_S_LISTS)
                 argv = _argv(d, sw, sl, '-n')
                 rc, so, se = clidrv.run_subprocess(argv)
-                r = clidrv.run_main(argv)
+                r = clidrv.run_main(argv, isolate=True)
                 case = {'cli': True, 'sw': list(sw), 'slist': sl, 'subprocess': True}
                 res.case(nontrivial_key=json.dumps(case), outcome='subproc:%s' % rc)
                 if (rc, so) != (r.status, r.stdout):
@@ -220,7 +254,7 @@ def _cli_case(case, pt, d=None, cells=None):
     want = sum(1 for sev, flags in cells if ref.selected(sev, flags, *[bool(x) for x in sw], groups=groups))
     out = []
     core.arm(30)
-    r = clidrv.run_main(_argv(d, sw, sl, '-n'))
+    r = clidrv.run_main(_argv(d, sw, sl, '-n'), isolate=True)
     core.disarm()
     try:
         got = strictjson.loads(r.stdout)['Number of PELs found']
